@@ -117,12 +117,13 @@ SepCodes(toks) == [i \in 1..(IF Len(toks) = 0 THEN 0 ELSE Len(toks) - 1) |-> Sep
 
 (* Byte offsets of tokens for a layout: lead bytes before the first token,  *)
 (* gap[i] bytes between token i and token i+1.  (ASCII only: Len = bytes.)  *)
-RECURSIVE TokStart(_, _, _, _)
-TokStart(toks, lead, gap, i) ==
-  IF i = 1 THEN lead ELSE TokStart(toks, lead, gap, i - 1) + Len(toks[i - 1]) + gap[i - 1]
-TokEnd(toks, lead, gap, i) == TokStart(toks, lead, gap, i) + Len(toks[i])
+RECURSIVE StartsFrom(_, _, _, _)
+StartsFrom(toks, gap, i, at) ==      \* <<start of token i, start of token i+1, ...>>, token i starting at `at`
+  IF i > Len(toks) THEN <<>>
+  ELSE <<at>> \o StartsFrom(toks, gap, i + 1, at + Len(toks[i]) + (IF i < Len(toks) THEN gap[i] ELSE 0))
+Starts(toks, lead, gap) == StartsFrom(toks, gap, 1, lead)
 \* span of a node = [start of its first token, end of its last token)
-ByteSpan(n, toks, lead, gap) == <<TokStart(toks, lead, gap, n.f), TokEnd(toks, lead, gap, n.l)>>
+ByteSpan(n, toks, starts) == <<starts[n.f], starts[n.l] + Len(toks[n.l])>>
 
 (* ------------------------------------------------------------------------ *)
 (* Stage 1: where parentheses are needed                                    *)
@@ -486,9 +487,15 @@ LawOnlyParens(pm, pr) ==           \* the two texts differ only by parentheses
   SelectSeq(pm.t, NotParen) = SelectSeq(pr.t, NotParen)
 LawSpans(p) ==                     \* spans: root covers the text, children inside parents, in order
   p.n.f = 1 /\ p.n.l = Len(p.t) /\ Nested(p.n)
-LawBytes(p) ==                     \* token order is byte order for any layout (checked on single spaces)
-  LET gap == [i \in 1..Len(p.t) |-> 1] IN
-  \A i \in 1..(Len(p.t) - 1) : TokEnd(p.t, 0, gap, i) + 1 = TokStart(p.t, 0, gap, i + 1)
+RECURSIVE BytesNested(_, _, _)
+BytesNested(n, toks, starts) ==
+  LET sp == ByteSpan(n, toks, starts) IN
+  \A i \in 1..Len(n.c) :
+    n.c[i].n # "none" =>
+      LET cs == ByteSpan(n.c[i], toks, starts) IN
+      sp[1] <= cs[1] /\ cs[1] < cs[2] /\ cs[2] <= sp[2] /\ BytesNested(n.c[i], toks, starts)
+LawBytes(p) ==                     \* byte spans (single-space layout): non-empty, children inside parents
+  BytesNested(p.n, p.t, Starts(p.t, 0, [i \in 1..Len(p.t) |-> 1]))
 LawReparse(p) ==                   \* the reference reading of the text is the tree (core only)
   InCore(p.t) => LET r == RefParse(p.t) IN r.ok /\ r.t = p.pt
 LawMinimal(e, pm) ==               \* every parenthesis of the minimal text is required (core, paren-free e)
